@@ -14,7 +14,9 @@ import (
 
 	"github.com/mmcloughlin/avo/attr"
 	"github.com/mmcloughlin/avo/ir"
+	"github.com/mmcloughlin/avo/operand"
 	"github.com/mmcloughlin/avo/printer"
+	"github.com/mmcloughlin/avo/reg"
 	"github.com/mmcloughlin/avo/x86"
 	"golang.org/x/arch/x86/x86asm"
 )
@@ -36,6 +38,15 @@ func c05Print(cases []*c05Case) (text []byte, lineOwner map[int]*c05Case, err er
 		fn := ir.NewFunction("f" + strconv.Itoa(c.id))
 		fn.Attributes = attr.NOSPLIT
 		fn.AddInstruction(c.inst)
+		if c.tail {
+			// a second instruction with a long opcode in the same block: the printer pads every opcode of the block to
+			// the longest one (goasm.flush), so the line under test is printed with padding
+			t, e := x86.VerifBuild("PREFETCHNTA", nil, []operand.Op{operand.Mem{Base: reg.RAX}})
+			if e != nil || t == nil {
+				return nil, nil, fmt.Errorf("cannot build PREFETCHNTA")
+			}
+			fn.AddInstruction(t)
+		}
 		if c.label != "" {
 			fn.AddLabel(ir.Label(c.label))
 			ret, e := x86.VerifBuild("RET", nil, nil)
@@ -73,7 +84,8 @@ func c05Print(cases []*c05Case) (text []byte, lineOwner map[int]*c05Case, err er
 		}
 		if cur != nil {
 			lineOwner[i+1] = cur
-			if cur.line == "" && strings.HasPrefix(l, "\t") && !strings.HasPrefix(l, "\t//") {
+			// the first indented line of the block that is not a comment is the instruction under test
+			if t := strings.TrimLeft(l, " \t"); cur.line == "" && t != l && t != "" && !strings.HasPrefix(t, "//") {
 				cur.line = l
 			}
 		}
@@ -268,6 +280,17 @@ func (a *c05Asm) readback(base string, cases []*c05Case) error {
 		}
 	}
 	for _, c := range cases {
+		if c.tail {
+			// PREFETCHNTA (AX) = 0f 18 00 behind the instruction under test
+			if n := len(c.code); n > 3 && c.code[n-3] == 0x0f && c.code[n-2] == 0x18 && c.code[n-1] == 0x00 {
+				c.code = c.code[:n-3]
+			} else {
+				c.code = nil
+				c.status = "rejected"
+				c.errmsg = "second instruction of the block missing from the machine code"
+				continue
+			}
+		}
 		if len(c.code) == 0 {
 			c.status = "rejected"
 			c.errmsg = "no machine code in object file"
